@@ -265,6 +265,20 @@ def proveBinaryOp (fs : List Expr) (op : BOp) (l r : Expr) : Option Bool :=
   | some lb, some rb => some (proveCore fs op l lb r rb)
   | _, _ => none
 
+/-- `bcheckAssert` for an `assert` without a `via` reason, up to the decision
+"proved / cannot prove": the condition is bounds-checked (`none`: rejected there), then
+it is a known fact, or the constant `true`, or `proveBinaryOp` proves it. -/
+def proveAssert (fs : List Expr) (cond : Expr) : Option Bool :=
+  match bcheck fs false cond with
+  | none => none
+  | some _ =>
+    if fs.contains cond then some true
+    else
+      match cond with
+      | .const v => some (v == 1)
+      | .binary op l r => proveBinaryOp fs op l r
+      | _ => some false
+
 /-- the nodes of `e` in the order the harness lists them (pre-order; the prefixes of
 associative chains are not nodes) -/
 def nodesPre : Expr → List Expr
